@@ -593,6 +593,11 @@ def prepare_dump(data: IOData, allow_changes: bool, filename: str) -> IOData:
                 "followed by fully virtual ones.",
                 filename,
             )
+        if na + nb == 0:
+            raise PrepareDumpError(
+                "Cannot dump FCHK because there are no electrons (such a file cannot be loaded).",
+                filename,
+            )
     return prepare_segmented(data, True, allow_changes, filename, "FCHK")
 
 
